@@ -9,6 +9,7 @@ Line-protocol driver for the discovery model (C18).  Strings travel as the hex o
   packreq <id> <ts> <wgf> <cnf>             → <hex> | exc:ValueError
   ctx <name> <workgroup> <pid> <port>       → ok            (new responder state)
   dg <addr> <data> <rid> <now>              → discarded-bad | exc:<T> | nomatch | sent <addr> <hex> | kill | discarded-type | dead
+  mkctx <name> <workgroup>                  → ok | exc:QMI_UsageException      (QMI_Context.__init__)
   sentcount                                 → number of datagrams sent by the responder so far
   disc <self> <reqid> <addr>:<hex>,…        → ok <name>@<addr>:<port>;… | exc:UnicodeDecodeError
 -/
@@ -90,6 +91,10 @@ def stepLine (s : RState) (line : String) : RState × String :=
         | .discardedType => "discarded-type"
       (step L s d, out)
     | _, _, _, _ => (s, "bad-op")
+  | ["mkctx", n, w] =>
+    match str? n, str? w with
+    | some n, some w => (s, if admitContext L n w then "ok" else "exc:QMI_UsageException")
+    | _, _ => (s, "bad-op")
   | ["nopkt"] => (s, if s.alive then "no-packet" else "dead")      -- `BlockingIOError` branch of `_handle_read`
   | ["sentcount"] => (s, toString s.sent.length)
   | ["disc", self, rid, ds] =>
